@@ -122,7 +122,11 @@ def run(rep):
              'through _convert_None_to_Interface (None means Interface)',
              floor=5)
     rep.rule('R04.6', 'LookupBase.lookup returns `default` (by identity) iff '
-             'the result is None, else the result', floor=1)
+             'the result is None, else the result; the cache stores the uncached result, never the default (PY and C)', floor=3)
+    rep.rule('R04.7', 'the winner follows later changes of the required '
+             'specifications: _uncached_lookup subscribes the lookup object to '
+             'every required spec on hit and on miss (else a cached winner '
+             'survives classImplements/__bases__ changes)', floor=1)
     rep.decline('none - relative to C02/C03 (resolution orders) and C01 '
                 '(providedBy)')
 
@@ -265,3 +269,7 @@ def run(rep):
     # ---- R04.6 default handling (PY) -------------------------------------
     lk = find_def(mod, 'LookupBase.lookup')
     shared.check_default_tail(rep, 'R04.6', lk, 'LookupBase.lookup')
+    from .C05 import subscribe_on_all_exits
+    subscribe_on_all_exits(rep, mod, 'R04.7', only=('_uncached_lookup',))
+    from . import cside
+    cside.c04(rep)
